@@ -3,13 +3,24 @@
 (* classes (every step logs the abstract mesh before and after) against the     *)
 (* clauses of Refinement.tla.  Both uniform and adaptive steps occur in the     *)
 (* histories of C12 and C13; each is judged by its own clause set.              *)
-EXTENDS Refinement
+EXTENDS UniformOps
 
 Batch  == JsonDeserialize(IOEnv.TRACE_FILE)
 Events == Batch.events
 N      == Len(Events)
 
-Clauses(e) == IF e.a = "Refine" THEN RefineClauses(e) ELSE AdaptClauses(e)
+\* informational (never a verdict): for one uniform step of first-order segments / triangles / quadrilaterals the
+\* transcription UniformOps!UniformImpl reproduces the code's result exactly (vertices, cells, tag index lists)
+AsSets(tags) == {<<tags[q][1], VSet(tags[q][2])>> : q \in DOMAIN tags}
+BndSets(tags) == {<<tags[q][1], {VSet(tags[q][2][x]) : x \in DOMAIN tags[q][2]}>> : q \in DOMAIN tags}
+Drift(e) == IF e.a = "Refine" /\ e.err = "" /\ e.k = 1 /\ e.pre.cls \in {"MeshLine1", "MeshTri1", "MeshQuad1"}
+               /\ MeshWF(e.pre)
+            THEN LET mdl == UniformImpl(e.pre, FALSE) IN
+                 [Drift_UniformModelEqualsCode |-> /\ mdl.p = e.post.p /\ mdl.t = e.post.t
+                                                   /\ AsSets(mdl.sub) = AsSets(e.post.sub)
+                                                   /\ BndSets(mdl.bnd) = BndSets(e.post.bnd)]
+            ELSE <<>>
+Clauses(e) == (IF e.a = "Refine" THEN RefineClauses(e) ELSE AdaptClauses(e)) @@ Drift(e)
 
 VARIABLES i, bad, cnt
 vars == <<i, bad, cnt>>
